@@ -1,12 +1,23 @@
-// C41 — kad MemoryStore (std HashMap/HashSet -> dependency shim).  One step from
-// ANY small store state under ANY small configuration, compared with the
-// abstract model of the statement:
+// C41 — kad MemoryStore (std HashMap/HashSet -> dependency shim).  One step of the
+// REAL RecordStore methods, compared with the abstract model of the statement:
 //   records  : finite map  Key -> Record          (bounded by max_records)
 //   providers: finite map  Key -> list of ProviderRecord, one per provider
 //              (each list bounded by max_providers_per_key)
 //   provided : the set of exactly the local node's provider records
 // The store is built as a struct literal (the constructor derives the local
 // kbucket key through Sha256, which the store never reads: only `preimage()`).
+//
+// SYMBOLIC in every harness: all four limits of the configuration, every value byte,
+// every expiry.  ENUMERATED (const generics, one harness per scenario): how many
+// records / providers are stored, and WHICH stored entry the operation addresses
+// (keys "a","b","c"; providers LOCAL, P1, P2, P3).  Reason, measured: `Key` is a
+// `bytes::Bytes`, whose clone/drop go through a vtable FUNCTION POINTER; as soon as
+// the addressed cell is symbolic the vtable value is an if-then-else, CBMC's
+// function-pointer removal then explores every vtable implementation of the crate
+// (promotable/shared/owned: allocation, atomics) under infeasible guards, and even
+// the one-record put/get/remove harness ran out of 14 GB (450 s).  The store treats
+// keys and peer ids as opaque values compared by `==`, so the scenarios are
+// representative, but that symmetry argument is not machine-checked: `bounded`.
 
 fn peer(d: u8) -> PeerId {
     PeerId::from_multihash(Multihash::<64>::wrap(0, &[d]).unwrap()).unwrap()
@@ -14,46 +25,44 @@ fn peer(d: u8) -> PeerId {
 
 const LOCAL: u8 = 0xAA;
 
-fn local() -> PeerId {
-    peer(LOCAL)
+/// key number 1, 2, 3 = "a", "b", "c" (static storage: clone and drop are pointer copies)
+fn skey(n: u8) -> Key {
+    Key(bytes::Bytes::from_static(match n {
+        1 => b"a",
+        2 => b"b",
+        _ => b"c",
+    }))
 }
 
-/// one of three peers: the local node or one of two others
-fn any_peer_tag() -> u8 {
-    let t: u8 = kani::any();
-    kani::assume(t == LOCAL || t == 1 || t == 2);
-    t
+fn rec<const VLEN: usize>(k: &Key, v: u8) -> Record {
+    let value = match VLEN {
+        0 => Vec::new(),
+        1 => vec![v],
+        _ => vec![v, v],
+    };
+    Record { key: k.clone(), value, publisher: None, expires: None }
 }
 
-fn key(b: u8) -> Key {
-    Key::from(vec![b])
-}
-
-fn rec(k: u8, v: u8, vlen: usize) -> Record {
-    let mut value = Vec::with_capacity(4);
-    let mut i = 0;
-    while i < vlen {
-        value.push(v);
-        i += 1;
-    }
-    Record { key: key(k), value, publisher: None, expires: None }
-}
-
-/// `tag` distinguishes two records of the same (key, provider): a refreshed record
-/// carries a different expiry.
-fn prov(k: u8, p: u8, tag: u8) -> ProviderRecord {
-    let expires = if tag == 0 {
+fn any_expiry() -> Option<Instant> {
+    if kani::any() {
         None
     } else {
+        let s: u64 = kani::any();
+        kani::assume(s <= 1 << 40);
         let zero: Instant = unsafe { std::mem::zeroed() };
-        Some(zero + std::time::Duration::from_secs(tag as u64))
-    };
-    ProviderRecord { key: key(k), provider: peer(p), expires, addresses: Vec::new() }
+        Some(zero + std::time::Duration::from_secs(s))
+    }
+}
+
+/// (ProviderRecord's `==` looks at key and provider only: the expiry tells a refreshed
+/// record from the one it replaces)
+fn prov(k: &Key, p: u8, expires: Option<Instant>) -> ProviderRecord {
+    ProviderRecord { key: k.clone(), provider: peer(p), expires, addresses: Vec::new() }
 }
 
 fn any_config() -> MemoryStoreConfig {
     let (a, b, c, d): (u8, u8, u8, u8) = (kani::any(), kani::any(), kani::any(), kani::any());
-    kani::assume(a <= 3 && b <= 3 && c <= 2 && d <= 2);
+    kani::assume(a <= 3 && b <= 3 && c <= 3 && d <= 3);
     MemoryStoreConfig {
         max_records: a as usize,
         max_value_bytes: b as usize,
@@ -64,7 +73,7 @@ fn any_config() -> MemoryStoreConfig {
 
 fn empty_store() -> MemoryStore {
     MemoryStore {
-        local_key: crate::kbucket::verif::c41::key_with_bytes(local(), [0u8; 32]),
+        local_key: crate::kbucket::verif::c41::key_with_bytes(peer(LOCAL), [0u8; 32]),
         config: any_config(),
         records: HashMap::default(),
         providers: HashMap::default(),
@@ -72,173 +81,212 @@ fn empty_store() -> MemoryStore {
     }
 }
 
-/// ANY store holding up to two records (distinct symbolic one-byte keys)
-fn any_record_store() -> MemoryStore {
-    let mut s = empty_store();
-    let k1: u8 = kani::any();
-    let k2: u8 = kani::any();
-    kani::assume(k1 != k2);
-    if kani::any() {
-        s.records.insert(key(k1), rec(k1, kani::any(), 1));
-        if kani::any() {
-            s.records.insert(key(k2), rec(k2, kani::any(), 1));
-        }
-    }
-    s
-}
-
 fn value_of(s: &MemoryStore, k: &Key) -> Option<(usize, u8)> {
     s.get(k).map(|r| (r.value.len(), if r.value.is_empty() { 0 } else { r.value[0] }))
 }
 
-/// put / get / remove behave like a map bounded by max_records / max_value_bytes
-#[kani::proof]
-#[kani::unwind(8)]
-fn contract_put_get_remove() {
-    let mut s = any_record_store();
+/// N stored records under keys 1..=N with symbolic one-byte values
+fn record_store<const N: u8>() -> MemoryStore {
+    let mut s = empty_store();
+    let mut i = 1;
+    while i <= N {
+        let k = skey(i);
+        s.records.insert(k.clone(), rec::<1>(&k, kani::any()));
+        i += 1;
+    }
+    s
+}
+
+/// put(key T) of a VLEN-byte value into a store holding keys 1..=N (T <= N: replaces; T > N: new key),
+/// then get of every key.
+fn put_get<const N: u8, const T: u8, const VLEN: usize>() {
+    let mut s = record_store::<N>();
     let n0 = s.records.len();
-    let k: u8 = kani::any();
-    let other: u8 = kani::any();
-    kani::assume(other != k);
-    let vlen: usize = kani::any();
-    kani::assume(vlen <= 3);
+    assert!(n0 == N as usize);
+    let keys = [skey(1), skey(2), skey(3)];
+    let before = [value_of(&s, &keys[0]), value_of(&s, &keys[1]), value_of(&s, &keys[2])];
     let v: u8 = kani::any();
-    let (kk, ko) = (key(k), key(other));
-    let before = value_of(&s, &kk);
-    let other_before = value_of(&s, &ko);
     let max_records = s.config.max_records;
     let max_value_bytes = s.config.max_value_bytes;
-    let r = s.put(rec(k, v, vlen));
+    let t = T as usize - 1;
+    assert!(before[t].is_some() == (T <= N));
+    let r = s.put(rec::<VLEN>(&keys[t], v));
     // refused exactly when the value has max_value_bytes or more, or the key is new
     // and max_records are already stored
-    let too_large = vlen >= max_value_bytes;
-    let full = before.is_none() && n0 >= max_records;
+    let too_large = VLEN >= max_value_bytes;
+    let full = before[t].is_none() && n0 >= max_records;
     assert!(r.is_ok() == !(too_large || full));
     if r.is_ok() {
         // get returns the latest put; the store grows by one only for a new key
-        assert!(value_of(&s, &kk) == Some((vlen, if vlen == 0 { 0 } else { v })));
-        assert!(s.records.len() == n0 + before.is_none() as usize);
+        assert!(value_of(&s, &keys[t]) == Some((VLEN, if VLEN == 0 { 0 } else { v })));
+        assert!(s.records.len() == n0 + before[t].is_none() as usize);
     } else {
         // a refused put changes nothing
-        assert!(value_of(&s, &kk) == before);
+        assert!(value_of(&s, &keys[t]) == before[t]);
         assert!(s.records.len() == n0);
     }
-    // frame: any other key is untouched
-    assert!(value_of(&s, &ko) == other_before);
-    // remove deletes exactly that key
-    let n1 = s.records.len();
-    let had = value_of(&s, &kk).is_some();
-    s.remove(&kk);
-    assert!(value_of(&s, &kk).is_none());
-    assert!(value_of(&s, &ko) == other_before);
-    assert!(s.records.len() == n1 - had as usize);
-    std::mem::forget((s, kk, ko));
-}
-
-/// ANY store with up to one provider key holding up to two provider records of
-/// distinct providers (each possibly the local node, each fresh or refreshed),
-/// `provided` in sync with it.
-fn any_provider_store() -> (MemoryStore, u8) {
-    let mut s = empty_store();
-    let k: u8 = kani::any();
-    if kani::any() {
-        let mut list: SmallVec<[ProviderRecord; K_VALUE.get()]> = SmallVec::new();
-        let p1 = any_peer_tag();
-        let t1: u8 = if kani::any() { 1 } else { 0 };
-        list.push(prov(k, p1, t1));
-        if p1 == LOCAL {
-            s.provided.insert(prov(k, p1, t1));
+    // frame: every other key is untouched
+    let mut j = 0;
+    while j < 3 {
+        if j != t {
+            assert!(value_of(&s, &keys[j]) == before[j]);
         }
-        if kani::any() {
-            let p2 = any_peer_tag();
-            kani::assume(p2 != p1);
-            let t2: u8 = if kani::any() { 1 } else { 0 };
-            list.push(prov(k, p2, t2));
-            if p2 == LOCAL {
-                s.provided.insert(prov(k, p2, t2));
-            }
-        }
-        s.providers.insert(key(k), list);
+        j += 1;
     }
-    (s, k)
+    kani::cover!(r.is_ok());
+    std::mem::forget((s, r));
 }
 
-fn listed(s: &MemoryStore, k: &Key, p: &PeerId) -> Option<usize> {
-    s.providers.get(k).and_then(|l| l.iter().position(|x| &x.provider == p))
+/// remove(key T) from a store holding keys 1..=N: exactly that key leaves
+fn remove_get<const N: u8, const T: u8>() {
+    let mut s = record_store::<N>();
+    let keys = [skey(1), skey(2), skey(3)];
+    let before = [value_of(&s, &keys[0]), value_of(&s, &keys[1]), value_of(&s, &keys[2])];
+    let t = T as usize - 1;
+    s.remove(&keys[t]);
+    assert!(value_of(&s, &keys[t]).is_none());
+    let mut j = 0;
+    while j < 3 {
+        if j != t {
+            assert!(value_of(&s, &keys[j]) == before[j]);
+        }
+        j += 1;
+    }
+    assert!(s.records.len() == N as usize - (T <= N) as usize);
+    std::mem::forget(s);
+}
+
+macro_rules! harness {
+    ($name:ident, $body:expr) => {
+        #[kani::proof]
+        #[kani::unwind(6)]
+        fn $name() {
+            $body
+        }
+    };
+}
+
+harness!(contract_put_new_key_into_empty, put_get::<0, 1, 1>());
+harness!(contract_put_replaces_only_record, put_get::<1, 1, 1>());
+harness!(contract_put_new_key_beside_one, put_get::<1, 2, 1>());
+harness!(contract_put_replaces_first_of_two, put_get::<2, 1, 1>());
+harness!(contract_put_replaces_second_of_two, put_get::<2, 2, 2>());
+harness!(contract_put_new_key_beside_two, put_get::<2, 3, 1>());
+harness!(contract_put_empty_value, put_get::<1, 2, 0>());
+harness!(contract_remove_absent_from_empty, remove_get::<0, 1>());
+harness!(contract_remove_only_record, remove_get::<1, 1>());
+harness!(contract_remove_absent_beside_one, remove_get::<1, 2>());
+harness!(contract_remove_first_of_two, remove_get::<2, 1>());
+harness!(contract_remove_second_of_two, remove_get::<2, 2>());
+
+type ProvList = SmallVec<[ProviderRecord; K_VALUE.get()]>;
+
+/// a provider list of `len` records whose unused inline cells hold concrete, well-formed
+/// filler records (never read by the store: they lie beyond `len`)
+fn list_of(a: ProviderRecord, b: ProviderRecord, len: usize) -> ProvList {
+    let fk = Key(bytes::Bytes::new());
+    macro_rules! f {
+        () => {
+            prov(&fk, 0x77, None)
+        };
+    }
+    let buf: [ProviderRecord; 20] = [
+        a, b, f!(), f!(), f!(), f!(), f!(), f!(), f!(), f!(), f!(), f!(), f!(), f!(), f!(), f!(), f!(), f!(), f!(), f!(),
+    ];
+    SmallVec::from_buf_and_len(buf, len)
+}
+
+const P: [u8; 4] = [LOCAL, 1, 2, 3];
+
+/// A store whose key 1 lists L providers: P[A] first, P[B] second (indices into P; 0 is the
+/// local node), symbolic expiries, `provided` in sync.
+fn provider_store<const L: usize, const A: usize, const B: usize>() -> MemoryStore {
+    let mut s = empty_store();
+    let k = skey(1);
+    if L >= 1 {
+        let (ra, rb) = (prov(&k, P[A], any_expiry()), prov(&k, P[B], any_expiry()));
+        if A == 0 {
+            s.provided.insert(ra.clone());
+        }
+        if L >= 2 && B == 0 {
+            s.provided.insert(rb.clone());
+        }
+        s.providers.insert(k.clone(), list_of(ra, rb, L));
+    }
+    s
+}
+
+/// position and expiry of provider P[x] in the list of key `k`
+fn listed(s: &MemoryStore, k: &Key, x: usize) -> Option<(usize, Option<Instant>)> {
+    let p = peer(P[x]);
+    s.providers.get(k).and_then(|l| l.iter().position(|r| r.provider == p).map(|i| (i, l[i].expires)))
 }
 
 fn list_len(s: &MemoryStore, k: &Key) -> usize {
     s.providers.get(k).map_or(0, |l| l.len())
 }
 
-/// `provided` lists exactly the local node's current provider records: it has as
-/// many elements as there are keys with a local record (the harness states reach
-/// at most the two keys given), and contains each of those records.
-fn provided_in_sync(s: &MemoryStore, keys: [&Key; 2], same: bool) -> bool {
+/// `provided` lists exactly the local node's current provider records (keys 1 and 2 are
+/// the only ones the scenarios reach): one element per key with a local record, equal to
+/// it including the expiry.
+fn provided_in_sync(s: &MemoryStore) -> bool {
     let mut ok = true;
     let mut n = 0;
-    let mut i = 0;
-    while i < 2 {
-        if i == 0 || !same {
-            let cur = s.providers.get(keys[i]).and_then(|l| l.iter().find(|x| x.provider == local()));
-            if let Some(c) = cur {
-                ok &= s.provided.contains(c);
-                n += 1;
-            }
+    let mut kn = 1;
+    while kn <= 2 {
+        let k = skey(kn);
+        if let Some((_, e)) = listed(s, &k, 0) {
+            let probe = prov(&k, LOCAL, None);
+            ok &= s.provided.get(&probe).map_or(false, |x| x.expires == e);
+            n += 1;
         }
-        i += 1;
+        kn += 1;
     }
     ok && s.provided.len() == n
 }
 
-/// add_provider: per-key bound, in-place update, `provided` mirrors the local node's records
-#[kani::proof]
-#[kani::unwind(8)]
-fn contract_add_provider() {
-    let (mut s, k0) = any_provider_store();
-    let same = kani::any();
-    let k: u8 = if same { k0 } else { kani::any() };
-    kani::assume(same || k != k0);
-    let (kk0, kk) = (key(k0), key(k));
-    let (pt, qt) = (any_peer_tag(), any_peer_tag());
-    kani::assume(qt != pt);
-    let (p, q) = (peer(pt), peer(qt));
-    let tag: u8 = if kani::any() { 2 } else { 0 };
-    let new_rec = prov(k, pt, tag);
+/// add_provider(key KN, provider P[X]) on provider_store<L, A, B>
+fn add_provider_contract<const L: usize, const A: usize, const B: usize, const KN: u8, const X: usize>() {
+    let mut s = provider_store::<L, A, B>();
+    let (k1, kk) = (skey(1), skey(KN));
     let maxp = s.config.max_providers_per_key;
+    kani::assume(L <= maxp); // well-formed state: the per-key bound holds
+    assert!(provided_in_sync(&s)); // ... and `provided` mirrors the local records
     let keys0 = s.providers.len();
     let len0 = list_len(&s, &kk);
-    let pos0 = listed(&s, &kk, &p);
-    let q0 = listed(&s, &kk, &q);
-    let other_len0 = list_len(&s, &kk0);
-    kani::assume(len0 <= maxp); // well-formed state: the per-key bound holds
-    kani::cover!(true);
-    let r = s.add_provider(new_rec.clone());
+    let before = [listed(&s, &kk, 0), listed(&s, &kk, 1), listed(&s, &kk, 2), listed(&s, &kk, 3)];
+    let other0 = [listed(&s, &k1, 0), listed(&s, &k1, 1), listed(&s, &k1, 2), listed(&s, &k1, 3)];
+    let new_expiry = any_expiry();
+    let r = s.add_provider(prov(&kk, P[X], new_expiry));
     let len1 = list_len(&s, &kk);
     // each key lists at most max_providers_per_key providers
     assert!(len1 <= maxp);
-    // another provider of the same key is untouched, another key's list too
-    assert!(listed(&s, &kk, &q) == q0);
-    if !same {
-        assert!(list_len(&s, &kk0) == other_len0);
+    // every other provider of that key is untouched (position and record)
+    let mut j = 0;
+    while j < 4 {
+        if j != X {
+            assert!(listed(&s, &kk, j) == before[j]);
+        }
+        if KN != 1 {
+            assert!(listed(&s, &k1, j) == other0[j]); // and so is the other key's list
+        }
+        j += 1;
     }
-    match pos0 {
-        Some(i) => {
-            // re-adding a provider updates it in place (same position, new record)
+    match before[X] {
+        Some((i, _)) => {
+            // re-adding a provider updates it in place: same position, the new record
             assert!(r.is_ok());
             assert!(len1 == len0);
-            assert!(listed(&s, &kk, &p) == Some(i));
-            assert!(s.providers.get(&kk).unwrap()[i] == new_rec);
+            assert!(listed(&s, &kk, X) == Some((i, new_expiry)));
         }
         None => {
             if r.is_ok() && len0 < maxp {
                 assert!(len1 == len0 + 1);
-                assert!(listed(&s, &kk, &p) == Some(len0));
-                assert!(s.providers.get(&kk).unwrap()[len0] == new_rec);
+                assert!(listed(&s, &kk, X) == Some((len0, new_expiry)));
             } else {
-                // refused (provided-keys limit) or list full: the provider is not listed
+                // refused, or the list is full: the provider is not listed
                 assert!(len1 == len0);
-                assert!(listed(&s, &kk, &p).is_none());
+                assert!(listed(&s, &kk, X).is_none());
             }
             if r.is_err() {
                 assert!(matches!(r, Err(Error::MaxProvidedKeys)));
@@ -247,46 +295,72 @@ fn contract_add_provider() {
         }
     }
     // provided() lists exactly the local node's current provider records
-    assert!(provided_in_sync(&s, [&kk0, &kk], same));
-    std::mem::forget((s, kk0, kk, new_rec));
+    assert!(provided_in_sync(&s));
+    kani::cover!(r.is_ok() && len1 == len0 + 1);
+    std::mem::forget((s, r));
 }
 
-#[kani::proof]
-#[kani::unwind(8)]
-fn contract_remove_provider() {
-    let (mut s, k0) = any_provider_store();
-    let same = kani::any();
-    let k: u8 = if same { k0 } else { kani::any() };
-    kani::assume(same || k != k0);
-    let (kk0, kk) = (key(k0), key(k));
-    let (pt, qt) = (any_peer_tag(), any_peer_tag());
-    kani::assume(qt != pt);
-    let (p, q) = (peer(pt), peer(qt));
-    let q0 = listed(&s, &kk0, &q).is_some();
-    let p0 = listed(&s, &kk0, &p).is_some();
-    let len0 = list_len(&s, &kk0);
-    let was = same && p0;
-    s.remove_provider(&kk, &p);
-    // exactly that provider record leaves; every other one stays
-    assert!(listed(&s, &kk, &p).is_none());
-    assert!(listed(&s, &kk0, &q).is_some() == q0);
-    assert!(list_len(&s, &kk0) == len0 - was as usize);
-    if !same {
-        assert!(listed(&s, &kk0, &p).is_some() == p0);
+// first provider of a new key: local / remote
+harness!(contract_add_local_provider_first_key, add_provider_contract::<0, 1, 2, 1, 0>());
+harness!(contract_add_remote_provider_first_key, add_provider_contract::<0, 1, 2, 1, 1>());
+// key 1 lists one remote provider: re-add it, add the local node, add under a second key
+harness!(contract_readd_only_remote_provider, add_provider_contract::<1, 1, 2, 1, 1>());
+harness!(contract_add_local_beside_remote, add_provider_contract::<1, 1, 2, 1, 0>());
+harness!(contract_add_local_under_second_key, add_provider_contract::<1, 0, 2, 2, 0>());
+// key 1 lists the local node: refresh it
+harness!(contract_readd_only_local_provider, add_provider_contract::<1, 0, 2, 1, 0>());
+// key 1 lists two providers (remote, local): refresh either; (remote, remote): add a third
+harness!(contract_readd_second_local_of_two, add_provider_contract::<2, 1, 0, 1, 0>());
+harness!(contract_readd_first_remote_of_two, add_provider_contract::<2, 1, 0, 1, 1>());
+harness!(contract_add_third_provider, add_provider_contract::<2, 1, 2, 1, 0>());
+
+/// remove_provider(key KN, provider P[X]) on provider_store<L, A, B>
+fn remove_provider_contract<const L: usize, const A: usize, const B: usize, const KN: u8, const X: usize>() {
+    let mut s = provider_store::<L, A, B>();
+    let (k1, kk) = (skey(1), skey(KN));
+    assert!(provided_in_sync(&s));
+    let len0 = list_len(&s, &k1);
+    let before = [listed(&s, &k1, 0), listed(&s, &k1, 1), listed(&s, &k1, 2), listed(&s, &k1, 3)];
+    let was = KN == 1 && before[X].is_some();
+    s.remove_provider(&kk, &peer(P[X]));
+    // exactly that provider record leaves; every other one stays, in order
+    assert!(listed(&s, &kk, X).is_none());
+    assert!(list_len(&s, &k1) == len0 - was as usize);
+    let mut j = 0;
+    while j < 4 {
+        if !(was && j == X) {
+            match (before[j], listed(&s, &k1, j)) {
+                (None, None) => {}
+                (Some((i0, e0)), Some((i1, e1))) => {
+                    assert!(e0 == e1);
+                    let shift = was && before[X].map_or(false, |(ix, _)| ix < i0);
+                    assert!(i1 == i0 - shift as usize);
+                }
+                _ => assert!(false),
+            }
+        }
+        j += 1;
     }
     // empty lists are dropped
-    assert!(s.providers.get(&kk0).map_or(true, |l| !l.is_empty()));
+    assert!(s.providers.get(&k1).map_or(true, |l| !l.is_empty()));
     // provided() still lists exactly the local node's current provider records
-    assert!(provided_in_sync(&s, [&kk0, &kk], same));
-    std::mem::forget((s, kk0, kk));
+    assert!(provided_in_sync(&s));
+    std::mem::forget(s);
 }
 
-/// Vacuity canary: must FAIL.
+harness!(contract_remove_only_local_provider, remove_provider_contract::<1, 0, 2, 1, 0>());
+harness!(contract_remove_unlisted_provider, remove_provider_contract::<1, 1, 2, 1, 0>());
+harness!(contract_remove_first_local_of_two, remove_provider_contract::<2, 0, 1, 1, 0>());
+harness!(contract_remove_second_remote_of_two, remove_provider_contract::<2, 0, 1, 1, 1>());
+harness!(contract_remove_under_other_key, remove_provider_contract::<2, 0, 1, 2, 0>());
+
+/// Vacuity canary: must FAIL (a put at the record limit is refused).
 #[kani::proof]
-#[kani::unwind(8)]
+#[kani::unwind(6)]
 fn canary_put_always_ok() {
-    let mut s = any_record_store();
-    let r = s.put(rec(kani::any(), 1, 1));
+    let mut s = record_store::<1>();
+    let k = skey(2);
+    let r = s.put(rec::<1>(&k, 1));
     assert!(r.is_ok());
     std::mem::forget(s);
 }
